@@ -49,6 +49,10 @@ func (r *Registry) Add(soyfile *ast.SoyFileNode) error {
 		if !ok {
 			continue
 		}
+		if _, exists := r.sourceByTemplateName[tn.Name]; exists {
+			return fmt.Errorf("template %v is defined more than once (%v and %v)",
+				tn.Name, r.fileByTemplateName[tn.Name], soyfile.Name)
+		}
 
 		// Technically every template requires soydoc, but having to add empty
 		// soydoc just to get a template to compile is just stupid.  (There is a
